@@ -135,7 +135,7 @@ pub(crate) fn import2(input: Span) -> PResult<Import> {
 // Arguments for unknwn at-rules.  Should probably be more permitting.
 fn atrule_args(input: Span) -> PResult<Span> {
     recognize(opt(preceded(
-        is_not("()/{}"),
+        is_not("()/{};"),
         opt(terminated(
             delimited(tag("("), atrule_args, tag(")")),
             atrule_args,
